@@ -15,6 +15,7 @@ fn key_other_family(k: KeyId) -> KeyId {
         Fam::Ec => KeyId::IssuerEd,
         Fam::Ed => KeyId::Hmac1,
         Fam::Hmac => KeyId::IssuerEc,
+        Fam::Rsa => KeyId::IssuerEc,
     }
 }
 
@@ -306,7 +307,15 @@ pub fn honest_pairs(ctx: &mut Ctx, n: usize) -> Vec<(Honest, Option<Honest>)> {
     let mut out = vec![];
     for i in 0..n {
         let mut r = ctx.rng.fork(1000 + i as u64);
-        let f = gen_flow(&mut r, &cfg);
+        let mut f = gen_flow(&mut r, &cfg);
+        // every algorithm family takes part whatever the seed draws
+        match i % 12 {
+            3 => { f.issue.key = KeyId::IssuerRsa; f.issue.alg = Some("RS256".into()); }
+            7 => { f.issue.key = KeyId::IssuerRsa2; f.issue.alg = Some("PS384".into()); }
+            9 => { f.issue.key = KeyId::Hmac1; f.issue.alg = Some("HS512".into()); }
+            10 => { f.issue.key = KeyId::IssuerEd; f.issue.alg = Some("EdDSA".into()); }
+            _ => {}
+        }
         // a second credential from the same issuer key, format and holder setting
         let mut g = gen_flow(&mut r, &cfg);
         g.issue.key = f.issue.key;
